@@ -22,7 +22,11 @@ SPEC = {
             'every key proved, light mutations on 2 keys), large (5-10 x 20-40, 12 keys proved), malformed (14 byte-level '
             'probes per case), confuse (the forgeries of the fixed finding C03-leaf-inner-confusion - a node {height 0, size 1} in front '
             'of the honest path of a leaf whose key or value is the forged pair\'s leaf digest - both variants, tree sizes 1-15, plus the '
-            'same with height 1 and -1; all must be rejected) and nearmiss (the same forgeries on trees without such a leaf). Prove probes: GetKVPairProof + VerifyKVPairProof of the returned bytes, '
+            'same with height 1 and -1; all must be rejected) and nearmiss (the same forgeries on trees without such a leaf). '
+            'Two-sided nodes (inside every mutated key: at every node for tiny, at node 0 and one random node otherwise): the honest proof with the '
+            'empty slot of node i filled with the genuine digest of the child on the path / a copy of the sibling / random 32 bytes / '
+            '(node 0) the prefixed genuine child digest, each offered with the right pair and a flipped value, the genuine-child forgery also with '
+            'flipped key, neighbour key + random value, another key of the tree, and as the path from node i only. Prove probes: GetKVPairProof + VerifyKVPairProof of the returned bytes, '
             'Tree.ConstructProof + Proof.Verify (value, LeafHash incl. prefix, RootHash) on the loaded tree and, in every third case '
             '(kind *-mem), on the UNSAVED tree after the last batch went through Tree.Set (mixed persisted / new nodes); absent neighbour keys. '
             'Mutations: value (bit flip, +00, truncated, empty, other value), key (bit flip, +00, other key, swapped with value), '
